@@ -73,6 +73,7 @@ pub fn run(rep: &mut Report, thorough: bool) {
         sweep_frames(rep, cfg, &format!("echo-seq-{}", tag), "echo sequence 0..65535 x {v4,v6}", 65536 * 2, |i| {
             flow(i >= 65536, 1, 1).icmp_echo(0xbeef, i as u16, b"data")
         });
+        crate::props::pairs::pair_histories(rep, cfg, &format!("pair-histories-{}", tag), &crate::props::pairs::l2l4_frames());
         // link-layer trailers: bytes after the IP datagram (Ethernet padding of short frames, FCS
         // remnants) are not part of the message
         let dims = [4u64, 21, 20, 2];
